@@ -49,11 +49,13 @@ def corr_sum_rule(rng, drv, n_cases=24, sizes=((8, 8), (5, 6), (4, 4))) -> Resul
         for k in range(n_cases):
             order = (2, 3, 4)[k % 3]
             maxN, maxnlp = sizes[order - 2]
-            c = abstract_cell(rng, max_N=maxN, max_nlp=maxnlp, n_shells=3)
+            # unshuffled cells are "species-grouped" (phonopy order): independent atoms 0, n_lp, 2 n_lp, ..
+            # so that with many batches an empty batch precedes a non-empty one
+            c = abstract_cell(rng, max_N=maxN, max_nlp=maxnlp, n_shells=3, shuffle=rng.random() < 0.5)
             use_cut = rng.random() < 0.5
             cutoff = rng.randint(1, 4) if use_cut else None
             fast = rng.random() < 0.6
-            n_batch = rng.choice([1, 1, 2, 3, c.N]) if c.N > 1 else 1
+            n_batch = rng.choice([1, 2, 3, c.N, c.N, c.N]) if c.N > 1 else 1
             n_batch = min(n_batch, c.N)
             fc = fake_cutoff(c, cutoff) if use_cut else None
             j = c.to_json(with_cut=cutoff) if use_cut else c.to_json()
@@ -69,6 +71,9 @@ def corr_sum_rule(rng, drv, n_cases=24, sizes=((8, 8), (5, 6), (4, 4))) -> Resul
                 continue
             m = drv.ask({"op": "sum_rule", "n": order, "fast": fast, "batch_size": batch_size, **j})
             mb = [sorted(map(tuple, b)) for b in m["batches"] if b is not None]
+            skipped = [b is None for b in m["batches"]]
+            if any(sk and not all(skipped[i:]) for i, sk in enumerate(skipped)):
+                res.count("empty_batch_before_nonempty_batch")
             if mb != cap:
                 res.fail(f"sum-rule rows O{order} ({'fast' if fast else 'stable'}) differ", input=j, order=order,
                          n_batch=n_batch, impl_batches=len(cap), model_batches=len(mb),
